@@ -14,6 +14,8 @@ type Env struct {
 	Uid, Euid, Gid, Egid, Pid, Ppid *int
 	Vars                            map[string]string
 	Hostname                        *string
+	// Files: path -> content the process finds there (nil content: the file does not exist); other paths are real
+	Files map[string][]byte
 }
 
 var cur atomic.Pointer[Env]
@@ -87,4 +89,46 @@ func Hostname() (string, error) {
 		return *e.Hostname, nil
 	}
 	return os.Hostname()
+}
+
+// ---- files the process reads about itself and its host (/proc/self/..., /etc/..., /sys/...) -----------------
+//
+// os.ReadFile and os.Open of the instrumented files come here: a path for which the harness has installed content
+// (Env.Files) answers with it, every other path is the real file.  Open hands out the read end of a pipe that holds
+// the content (enough for the small text files in question).
+
+func fileContent(name string) ([]byte, bool) {
+	if e := get(); e != nil && e.Files != nil {
+		b, ok := e.Files[name]
+		return b, ok
+	}
+	return nil, false
+}
+
+func ReadFile(name string) ([]byte, error) {
+	if b, ok := fileContent(name); ok {
+		if b == nil {
+			return nil, &os.PathError{Op: "open", Path: name, Err: os.ErrNotExist}
+		}
+		return append([]byte{}, b...), nil
+	}
+	return os.ReadFile(name)
+}
+
+func Open(name string) (*os.File, error) {
+	if b, ok := fileContent(name); ok {
+		if b == nil {
+			return nil, &os.PathError{Op: "open", Path: name, Err: os.ErrNotExist}
+		}
+		r, w, err := os.Pipe()
+		if err != nil {
+			return nil, err
+		}
+		go func() {
+			_, _ = w.Write(b)
+			_ = w.Close()
+		}()
+		return r, nil
+	}
+	return os.Open(name)
 }
